@@ -153,6 +153,8 @@ fn run_ext<B: Fld, E: FieldElement<BaseField = B>, H: ElementHasher<BaseField = 
                 Rule::Rot { order } => ctx.sub(&nxt[i], &ctx.mul_base(&cur[i], glue::root_of_unity::<B>(order.ilog2()))),
                 Rule::FibA => ctx.sub(&nxt[i], &cur[i + 1]),
                 Rule::FibB => ctx.sub(&nxt[i], &ctx.add(&cur[i - 1], &cur[i])),
+                Rule::FibC => ctx.sub(&nxt[i], &ctx.add(&cur[i], &cur[i + 1])),
+                Rule::FibD => ctx.sub(&nxt[i], &ctx.add(&cur[i], &nxt[i - 1])),
             };
             num = ctx.add(&num, &ctx.mul(&ct[i], &ev));
         }
